@@ -129,7 +129,7 @@ func runKit(o checkOpts, id string, k Kit) *kitResult {
 	cmd := fmt.Sprintf("cd %s && GOFLAGS=-mod=mod GOPROXY=off GOSUMDB=off GOTOOLCHAIN=local VERIF_SEED=%d GOVC_WITNESS_SECONDS=%d go test -overlay %s -vet=off%s%s%s -count=1 -timeout %ds -run '%s' %s",
 		o.repo, seed, secs, ovPath, race, tags, verbose, secs+120, k.Run, k.Pkg)
 	out, code := runReplayCmd(cmd)
-	r := &kitResult{cmd: cmd, out: out, reproduced: code != 0 && strings.Contains(out, "WITNESS")}
+	r := &kitResult{cmd: cmd, out: out, reproduced: code != 0 && (strings.Contains(out, "WITNESS") || strings.Contains(out, "DATA RACE"))}
 	kitCache[key] = r
 	return r
 }
